@@ -1,5 +1,6 @@
 import Driver.PathsCommon
 import W2c2Verif.Model.WasiPath
+import Driver.PathsReaddir
 
 /-! `pathsdriver` — line-protocol driver of the C14/C15 models (one line in → one line out;
     the same request lines as tools/harness/wasi_paths.c). -/
@@ -55,6 +56,9 @@ end Driver.Paths
 def handle (line : String) : String :=
   let ws := words line
   match pathCmd ws with
+  | some r => r
+  | none =>
+  match readdirCmd ws with
   | some r => r
   | none => "err unknown-command"
 
